@@ -59,7 +59,11 @@ def h(t, part):
         return record(*a, **kw)
 
     class Recorder:
-        pass
+        # state a helper might be tempted to look at: the helpers are also called from connect / connect_error handlers,
+        # i.e. while the connection is still being set up
+        connected = False
+        namespaces = {}
+        eio = None
     rec = Recorder()
     setattr(rec, helper, arecord if is_coro else record)
     # ---- which arguments are given, how, and with which values ---------------------------------------------------
